@@ -25,6 +25,8 @@ def attribute(tag, run, sibling_clean):
         return ['C04']
     if tag.startswith('c05.'):
         return ['C05']
+    if tag.startswith('c02.'):
+        return ['C02']
     if tag.startswith('c06.'):
         return ['C06']
     if tag == 'err.content':
